@@ -23,7 +23,7 @@ PROOFS = {
             # instantiation list kept, signature from instantiate_args_list / instantiate_return_type
             'InstantiatedMethod.__init__', 'InstantiatedStaticMethod.__init__', 'InstantiatedConstructor.__init__',
             'InstantiatedGlobalFunction.__init__', 'InstantiatedDeclaration.__init__', 'InstantiatedMethod.construct',
-            'InstantiatedStaticMethod.construct', 'InstantiatedConstructor.construct'],
+            'InstantiatedStaticMethod.construct', 'InstantiatedConstructor.construct', 'InstantiatedClass.__init__'],
     'C02': ['instantiate_args_list', 'instantiate_return_type'],
     'C13': [],
     'C15': [],
